@@ -259,6 +259,22 @@ add("C14", True, "exploration",
     "documented in rig's decoder comments and the SC&MP docs).",
     "DESIGN.md section 5, C14")
 
+add("C20", True, "exploration",
+    "Hypothesis-generated boot histories, oracle = independent struct packer "
+    "+ datagram reassembly",
+    "Histories of 1-5 boots in one process (boot.boot and "
+    "MachineController.boot, presets and arbitrary overrides passed by "
+    "keyword / sv_overrides / both / a re-used caller dict, images from 512 "
+    "to 32764 bytes) are captured by a listener on the boot port; start/"
+    "block/end datagrams, numbering, sizes and byte order are checked, the "
+    "reassembled image must equal the file with the configuration area "
+    "replaced by the independently packed defaults plus this call's options "
+    "only, the returned structs must describe the same values and the "
+    "caller's dictionary must be unchanged.",
+    "Trusted: vf/oracle/svstruct.py. Mutable default arguments of boot() "
+    "are emptied before each case so that cases are independent.",
+    "DESIGN.md section 5, C20")
+
 
 def main():
     checks = []
